@@ -14,6 +14,8 @@ def Val.beq : Val → Val → Bool
   | .bytes a, .bytes b => a == b
   | .datetime a, .datetime b => a == b
   | .date a, .date b => a == b
+  | .time a, .time b => a == b
+  | .uuid a, .uuid b => a == b
   | .enum c a, .enum d b => c == d && a == b
   | .opaque c a, .opaque d b => c == d && a == b
   | .list a, .list b => Val.beqList a b
@@ -39,6 +41,8 @@ theorem Val.eq_of_beq : ∀ a b : Val, Val.beq a b = true → a = b
   | .bytes _, b => by cases b <;> simp [Val.beq]
   | .datetime _, b => by cases b <;> simp [Val.beq]
   | .date _, b => by cases b <;> simp [Val.beq]
+  | .time _, b => by cases b <;> simp [Val.beq]
+  | .uuid _, b => by cases b <;> simp [Val.beq]
   | .enum _ _, b => by cases b <;> simp [Val.beq]
   | .opaque _ _, b => by cases b <;> simp [Val.beq]
   | .list xs, b => by
@@ -78,6 +82,8 @@ theorem Val.beq_refl : ∀ a : Val, Val.beq a a = true
   | .bytes _ => by simp [Val.beq]
   | .datetime _ => by simp [Val.beq]
   | .date _ => by simp [Val.beq]
+  | .time _ => by simp [Val.beq]
+  | .uuid _ => by simp [Val.beq]
   | .enum _ _ => by simp [Val.beq]
   | .opaque _ _ => by simp [Val.beq]
   | .list xs => by simp [Val.beq, Val.beqList_refl xs]
